@@ -765,7 +765,7 @@ RunLoop(node, itv, depth0, s, E, isRec, inner) ==
 ChildCtx(s, tname, parentMap) ==
     LET s0 == NewFrame(s, EmptyMap) IN
     NewCtx(s0, [vars |-> LastFrame(s0), parent |-> parentMap, exported |-> {}, blocks |-> EmptyMap,
-                par |-> "", tpl |-> tname, chain |-> <<>>])
+                par |-> "", tpl |-> tname, chain |-> <<>>, xg |-> EmptyMap])
 
 TplAuto(tname) == Tpls[tname].auto
 
@@ -929,7 +929,7 @@ Ex(st, s, E) ==
                                LET s0 == NewFrame(s, EmptyMap) IN
                                NewCtx(s0, [vars |-> LastFrame(s0), parent |-> Visible(s, E), exported |-> {},
                                            blocks |-> s.cx[E.cx].blocks, par |-> "", tpl |-> s.cx[E.cx].tpl,
-                                           chain |-> s.cx[E.cx].chain])
+                                           chain |-> s.cx[E.cx].chain, xg |-> EmptyMap])
                           ELSE s
                     cB == IF st.scoped THEN LastCtx(sA) ELSE E.cx
                     s0 == NewFrame(sA, def.pre)
@@ -969,7 +969,11 @@ Ex(st, s, E) ==
                 IF p.n = "?" THEN Fail(r.S, "EXCLUDED").S
                 ELSE IF ~p.ok THEN Fail(r.S, "TemplateNotFound").S
                 ELSE LET s1 == Log(r.S, <<"load", E.tpl, p.n>>)
+                         \* an importer whose context has template-level globals the imported template lacks
+                         \* gets a fresh module that can see them; it is never cached (documented)
+                         xg == s1.cx[E.cx].xg
                          m == IF st.with_context THEN MakeModule(p.n, Visible(s1, E), s1, E)
+                              ELSE IF DOMAIN xg # {} THEN MakeModule(p.n, xg @@ Globals, s1, E)
                               ELSE DefaultModule(p.n, s1, E) IN
                      IF Bad(m) THEN m.S
                      ELSE IF st.k = "import" THEN
@@ -989,12 +993,14 @@ Ex(st, s, E) ==
 (* The state machine                                                                 *)
 (* ================================================================================= *)
 Data == Case.datas[did]          \* record: name -> value (render arguments)
+\* globals given to get_template() for the main template only ("template-level globals")
+TGlobals == IF "tglobals" \in DOMAIN Case THEN Case.tglobals ELSE EmptyMap
 
 InitS ==
     LET top == EmptyMap IN
     [fr |-> <<top>>, ns |-> <<>>,
-     cx |-> <<[vars |-> 1, parent |-> Data @@ Globals, exported |-> {}, blocks |-> EmptyMap,
-               par |-> "", tpl |-> Case.main, chain |-> <<>>]>>,
+     cx |-> <<[vars |-> 1, parent |-> Data @@ TGlobals @@ Globals, exported |-> {}, blocks |-> EmptyMap,
+               par |-> "", tpl |-> Case.main, chain |-> <<>>, xg |-> TGlobals]>>,
      out |-> <<>>, log |-> <<>>, err |-> "", flow |-> "", mods |-> EmptyMap]
 
 Init ==
@@ -1051,8 +1057,8 @@ Again ==
     /\ phase' = "render"
     /\ npass' = 2
     /\ LET s0 == NewFrame([S EXCEPT !.out = <<>>, !.log = <<>>, !.err = "", !.flow = ""], PreMap(Tpls[Case.main], "pre"))
-           s1 == NewCtx(s0, [vars |-> LastFrame(s0), parent |-> Data @@ Globals, exported |-> {}, blocks |-> EmptyMap,
-                             par |-> "", tpl |-> Case.main, chain |-> <<>>])
+           s1 == NewCtx(s0, [vars |-> LastFrame(s0), parent |-> Data @@ TGlobals @@ Globals, exported |-> {}, blocks |-> EmptyMap,
+                             par |-> "", tpl |-> Case.main, chain |-> <<>>, xg |-> TGlobals])
        IN /\ S' = RegisterBlocks(s1, LastCtx(s1), Case.main)
           /\ rootcx' = LastCtx(s1)
     /\ todo' = Tpls[Case.main].body
